@@ -182,8 +182,9 @@ func prepareReassembly(bs []Bundle) error {
 			return fmt.Errorf("next fragment starts at offset %d, gap from %d to %d", fragOff, lastIndex, fragOff)
 		} else if payloadBlock, err := b.PayloadBlock(); err != nil {
 			return err
-		} else {
-			lastIndex = fragOff + uint64(len(payloadBlock.Value.(*PayloadBlock).Data()))
+		} else if fragEnd := fragOff + uint64(len(payloadBlock.Value.(*PayloadBlock).Data())); fragEnd > lastIndex {
+			// A fragment lying within the already covered data must not move the index backwards.
+			lastIndex = fragEnd
 		}
 	}
 
@@ -217,8 +218,18 @@ func mergeFragmentPayload(bs []Bundle) (data []byte, err error) {
 		}
 		fragPayloadData = fragPayloadBlock.Value.(*PayloadBlock).Data()
 
+		fragEndIndex := fragStartIndex + len(fragPayloadData)
+		if fragStartIndex > lastIndex {
+			err = fmt.Errorf("next fragment starts at offset %d, gap from %d", fragStartIndex, lastIndex)
+			return
+		}
+		if fragEndIndex <= lastIndex {
+			// This fragment lies completely within the already merged data.
+			continue
+		}
+
 		data = append(data, fragPayloadData[lastIndex-fragStartIndex:]...)
-		lastIndex = fragStartIndex + len(fragPayloadData)
+		lastIndex = fragEndIndex
 	}
 
 	return
